@@ -18,6 +18,7 @@ func init() {
 	rt.Register("C11_rowreduce_01_n3", VerifHarness_C11_rowreduce_01_n3)
 	rt.Register("C11_rowreduce_concrete", VerifHarness_C11_rowreduce_concrete)
 	rt.Register("C11_times", VerifHarness_C11_times)
+	rt.Register("C11_fill", VerifHarness_C11_fill)
 }
 
 func bitElems(name string, n int) []T {
@@ -93,7 +94,7 @@ func VerifHarness_C11_inverse_01() {
 	unchanged(m, e, "operand unchanged by Inverse")
 }
 
-func VerifHarness_C11_rowreduce_01() { rowreduce01(2) }
+func VerifHarness_C11_rowreduce_01()    { rowreduce01(2) }
 func VerifHarness_C11_rowreduce_01_n3() { rowreduce01(3) }
 
 func rowreduce01(maxN int) {
@@ -136,13 +137,13 @@ var concreteMatrices = []struct {
 }{
 	{1, []T{0x1234}, false},
 	{1, []T{0}, true},
-	{2, []T{0, 5, 7, 0}, false},                       // swap at the first pivot
-	{2, []T{2, 4, 4, 16}, false},                      // non-unit pivots
-	{2, []T{3, 5, 6, 10}, true},                       // row 2 = 2 * row 1 in GF(2^16)? (checked by the oracle below)
-	{3, []T{0, 0, 1, 0, 2, 3, 4, 5, 6}, false},        // swaps at pivots 0 and (after elimination) none
-	{3, []T{1, 2, 3, 1, 2, 4, 5, 6, 7}, false},        // zero pivot appears only after elimination
-	{3, []T{1, 1, 1, 2, 4, 16, 4, 16, 256}, false},    // PAR2 Vandermonde block
-	{3, []T{1, 2, 3, 4, 5, 6, 5, 7, 5}, true},         // row 3 = row 1 + row 2
+	{2, []T{0, 5, 7, 0}, false},                                     // swap at the first pivot
+	{2, []T{2, 4, 4, 16}, false},                                    // non-unit pivots
+	{2, []T{3, 5, 6, 10}, true},                                     // row 2 = 2 * row 1 in GF(2^16)? (checked by the oracle below)
+	{3, []T{0, 0, 1, 0, 2, 3, 4, 5, 6}, false},                      // swaps at pivots 0 and (after elimination) none
+	{3, []T{1, 2, 3, 1, 2, 4, 5, 6, 7}, false},                      // zero pivot appears only after elimination
+	{3, []T{1, 1, 1, 2, 4, 16, 4, 16, 256}, false},                  // PAR2 Vandermonde block
+	{3, []T{1, 2, 3, 4, 5, 6, 5, 7, 5}, true},                       // row 3 = row 1 + row 2
 	{4, []T{0, 0, 0, 9, 0, 0, 8, 1, 0, 7, 2, 3, 6, 4, 5, 1}, false}, // anti-triangular: swap at every pivot
 }
 
@@ -175,6 +176,41 @@ func VerifHarness_C11_rowreduce_concrete() {
 	if err2 == nil {
 		isIdentity(inv.Times(m), "inverse * M == I (concrete M)")
 	}
+}
+
+// Construction is size independent: NewMatrixFromFunction sets every element to
+// fn(i, j) and NewIdentityMatrix is the identity, also for matrices beyond the
+// sizes the other harnesses use (up to 130 x 128 = 16640 elements, 200 x 100).
+func VerifHarness_C11_fill() {
+	dims := [][2]int{{1, 1}, {3, 5}, {33, 31}, {129, 128}, {130, 127}, {200, 100}}[rt.Choice("dims", 6)]
+	rows, cols := dims[0], dims[1]
+	base := T(rt.U16("base"))
+	fn := func(i, j int) T { return base ^ T(i*cols+j) }
+	m := NewMatrixFromFunction(rows, cols, fn)
+	ok := true
+	for i := 0; i < rows; i++ {
+		for j := 0; j < cols; j++ {
+			if m.At(i, j) != fn(i, j) {
+				ok = false
+			}
+		}
+	}
+	rt.Assert(ok, "NewMatrixFromFunction: element (i,j) == fn(i,j) for every i, j")
+	n := rows
+	id := NewIdentityMatrix(n)
+	idOK := true
+	for i := 0; i < n; i++ {
+		for j := 0; j < n; j++ {
+			want := T(0)
+			if i == j {
+				want = 1
+			}
+			if id.At(i, j) != want {
+				idOK = false
+			}
+		}
+	}
+	rt.Assert(idOK, "NewIdentityMatrix(n) is the identity for every n")
 }
 
 // The matrix product is the row-by-column product (symbolic 2x2 by 2x2).
